@@ -60,8 +60,8 @@ func (o *c02) Step(r *StepRec) []Violation {
 		}
 		expEarn[prov] += fee - floorMul(fee, o.w.cfg.Tax)
 	}
-	if r.Action.Kind == KWithdraw {
-		// withdrawals reduce earnings; their exactness is C13's business
+	if r.Action.Kind == KWithdraw || r.Action.Kind == KRestart {
+		// withdrawals reduce earnings (C13's business); a restart pays all of them out (C19's)
 		expEarn = nil
 	}
 	if expEarn != nil {
@@ -387,7 +387,16 @@ func (o *c05) Step(r *StepRec) []Violation {
 		}
 	case KWithdraw:
 		if a.Provider != "" {
-			if ow, ok := pre.Owner[a.Provider]; ok {
+			bindOwner := ""
+			for _, bk := range sortedKeys(pre.Binds) {
+				if b := pre.Binds[bk]; hx(b.Provider) == a.Provider {
+					bindOwner = hx(b.Owner)
+					break
+				}
+			}
+			if bindOwner != "" {
+				rightful, target = bindOwner, true
+			} else if ow, ok := pre.Owner[a.Provider]; ok {
 				rightful, target = ow, true
 			} else if r.OK {
 				o.fail("c05:withdraw", "withdrawal for provider %s that has no owner succeeded", short(a.Provider))
@@ -405,6 +414,14 @@ func (o *c05) Step(r *StepRec) []Violation {
 	case KBind:
 		if ow, ok := pre.Owner[a.Provider]; ok {
 			rightful, target = ow, true
+		}
+		// ground truth independent of the provider->owner index: the owner recorded on the
+		// provider's existing bindings
+		for _, bk := range sortedKeys(pre.Binds) {
+			if b := pre.Binds[bk]; hx(b.Provider) == a.Provider {
+				rightful, target = hx(b.Owner), true
+				break
+			}
 		}
 		if o.w.cfg.ModSvc != nil && a.Service == ModSvcName {
 			o.hit("bind_reserved_service")
